@@ -765,7 +765,7 @@ The theorems: that function is the command model under **every** layout history 
 map after every entry and after every posting), so the text compared with the binary is the text all the statements
 above are about; and the statements `C13_balance` / `C13_register` / `C13_accounts` hold of the real text. -/
 section CommandText
-open Okane.CmdText
+open Okane.CmdText Okane.Price Okane.Query
 
 /-- **C13_balance_text.**  `okane balance [--start ..] [--end ..]` with the real messages: the text is the same for
 every layout history. -/
@@ -793,6 +793,28 @@ theorem C13_register_text_run (acct : Option String) (l : Layouts) (es : List En
 store prints what the driver computes. -/
 theorem C13_accounts_text_run (σ : { σ : Nat → Store → Store // StoreRelayout σ }) (es : List Entry) :
     CmdText.run .accounts es = .ok (unlines (accountsScanCmd leS σ.1 es)) := run_accounts_layouts σ.2 es
+
+/-- **`okane accounts` prints every account once, in strictly increasing byte order** (of the UTF-8 names). -/
+theorem C13_accounts_text_strict (es : List Entry) :
+    (CmdText.accountsLines es).Pairwise (fun a b => a < b) := accountsLines_strict es
+
+/-- four accounts in the example (the alias `EO` written in a posting counts as one: the scan never sees the
+`account` directive). -/
+example : (CmdText.accountsLines exLedger).length = 4 := by
+  unfold CmdText.accountsLines accountsReport
+  rw [List.length_mergeSort]
+  decide +kernel
+
+/-- **`okane balance` prints one line per account, in strictly increasing byte order of the account names.** -/
+theorem C13_balance_text_strict (r : DateRange) {es : List Entry} {st : ProcState} (h : process es = .ok st) :
+    CmdText.balanceLines r st = (balanceRows r st).map (fun kv => kv.1 ++ ": " ++ showAmount kv.2) ∧
+      ((balanceRows r st).map Prod.fst).Pairwise (fun a b => a < b) :=
+  ⟨balanceLines_rows r st, balanceRows_strict r h⟩
+
+/-- four rows for the example ledger. -/
+example : (match process exLedger with | .ok st => decide ((balanceRows {} st).length = 4) | _ => false) = true := by
+  simp only [balanceRows, sortByKey, List.length_mergeSort]
+  decide +kernel
 
 /-- the commands of section Commands (abstract error text) and `run` (Rust messages): same standard output, same
 failing entry, same panic site. -/
@@ -836,6 +858,78 @@ statements is inhabited), and the run on `exLedger` succeeds. -/
 example : (match process exBad with | .err (0, .unbalanced r) => decide (r.length = 3) | _ => false) = true := by
   decide +kernel
 example : (process exLedger).isOk = true := by decide +kernel
+
+/-! ### `okane balance -X …`, price db included -/
+
+/-- **C13_balance_exchange_text.**  `okane balance -X C --now D [--historical] [--start ..] [--end ..] [--price-db F]`
+with the Rust messages and the price db loaded the way `report::process` loads it (its commodities registered before
+`-X` is resolved): the text is the same for every layout history.  `dbText` is the content of the price-db file. -/
+theorem C13_balance_exchange_text {cfg : Cfg String} (hord : OrdOK cfg.ord) (dbText : Option (List Char)) (o : XOpts) :
+    C13_balance_exchange (Orders := Layouts) (Input := List Entry)
+      (fun l es => xTextScr cfg dbText o l.1.1 l.1.2 es) :=
+  fun l₁ l₂ es => xText_det hord dbText o l₁.2.1 l₂.2.1 l₁.2.2 l₂.2.2 es
+
+/-- … and it is what the driver computes. -/
+theorem C13_balance_exchange_text_run {cfg : Cfg String} (hord : OrdOK cfg.ord) (dbText : Option (List Char)) (o : XOpts)
+    (l : Layouts) (es : List Entry) : CmdText.runX cfg dbText o es = xTextScr cfg dbText o l.1.1 l.1.2 es :=
+  runX_layouts hord dbText o l.2.1 l.2.2 es
+
+/-- the price-db step of `process` on related accumulators. -/
+theorem C13_price_db_load (dbText : Option (List Char)) {st st' : ProcState} (h : st ≈ₚ st') :
+    ORel (· = ·) LoadedEq (loadRepo dbText st) (loadRepo dbText st') := loadRepo_meq dbText h
+
+/-- without a price db `xFinish` and `balanceXOut` (section Commands) agree up to the wording of the messages. -/
+theorem C13_balance_exchange_cmd_run (cfg : Cfg String) (o : XOpts) (x : Outcome (Nat × BkErrS) ProcState) :
+    (xFinish cfg none o x).mapErr failIndex =
+      ((balanceXOut cfg leS leS id showEntry [] ⟨some o.exchange, o.historical, o.now, o.range⟩ x).map' unlines).mapErr
+        cmdErrIndex := xFinish_balanceXOut cfg o x
+
+/-! non-vacuity: `exLedgerX` (its last transaction implies an exchange, which the reversed run logs with its sides
+exchanged — see the `example` in section Commands), converted to USD, with a price db that introduces a commodity
+the ledger does not mention. -/
+def exDb : List Char := "P 2024/01/03 EUR 1.1 USD\nP 2024/01/03 USD 2 HUB\n".toList
+
+example : CmdText.runX cfgSorted (some exDb) { exchange := "HUB", now := ⟨2024, 2, 1⟩ } exLedgerX =
+    xTextScr cfgSorted (some exDb) { exchange := "HUB", now := ⟨2024, 2, 1⟩ } lrev.1.1 lrev.1.2 exLedgerX :=
+  C13_balance_exchange_text_run ordSorted_string_ok _ _ lrev exLedgerX
+
+example : xTextScr cfgSorted none { exchange := "USD", historical := true, now := ⟨2024, 2, 1⟩ } lid.1.1 lid.1.2 exLedgerX =
+    xTextScr cfgSorted none { exchange := "USD", historical := true, now := ⟨2024, 2, 1⟩ } lrev.1.1 lrev.1.2 exLedgerX :=
+  C13_balance_exchange_text ordSorted_string_ok none _ lid lrev exLedgerX
+
+/-- the price db of the example parses (two records), so the `some` branch of `loadRepo` is the loaded one. -/
+example : (match PriceDbFile.parsePriceDb exDb with | .ok rs => decide (rs.length = 2) | _ => false) = true := by
+  decide +kernel
+
+/-! ### `okane primitive eval` -/
+
+/-- **C13_eval_text.**  `okane primitive eval --date D [-X C] [--price-db F] -f FILE EXPR` with the Rust messages:
+the text is the same for every layout history (`expr = none`: the expression text does not parse). -/
+theorem C13_eval_text {cfg : Cfg String} (hord : OrdOK cfg.ord) (dbText : Option (List Char)) (expr : Option VExpr)
+    (date : Date) (exchange : Option String) :
+    C13_eval (Orders := Layouts) (Input := List Entry)
+      (fun l es => evalTextScr cfg dbText expr date exchange l.1.1 l.1.2 es) :=
+  fun l₁ l₂ es => evalText_det hord dbText expr date exchange l₁.2.1 l₂.2.1 l₁.2.2 l₂.2.2 es
+
+theorem C13_eval_text_run {cfg : Cfg String} (hord : OrdOK cfg.ord) (dbText : Option (List Char)) (expr : Option VExpr)
+    (date : Date) (exchange : Option String) (l : Layouts) (es : List Entry) :
+    CmdText.runEval cfg dbText expr date exchange es = evalTextScr cfg dbText expr date exchange l.1.1 l.1.2 es :=
+  runEval_layouts hord dbText expr date exchange l.2.1 l.2.2 es
+
+theorem C13_eval_cmd_run (cfg : Cfg String) (expr : VExpr) (date : Date) (exchange : Option String)
+    (x : Outcome (Nat × BkErrS) ProcState) :
+    (evalFinish cfg none (some expr) date exchange x).mapErr failIndex =
+      ((evalOut cfg leS leS showEntry [] expr date exchange x).map' fun l => unlines [l]).mapErr cmdErrIndex :=
+  evalFinish_evalOut cfg expr date exchange x
+
+example : CmdText.runEval cfgSorted (some exDb) (some (.amt ⟨false, 3, 0, none⟩ "ACME")) ⟨2024, 2, 1⟩ (some "HUB") exLedgerX =
+    evalTextScr cfgSorted (some exDb) (some (.amt ⟨false, 3, 0, none⟩ "ACME")) ⟨2024, 2, 1⟩ (some "HUB")
+      lrev.1.1 lrev.1.2 exLedgerX :=
+  C13_eval_text_run ordSorted_string_ok _ _ _ _ lrev exLedgerX
+
+example : evalTextScr cfgSorted none none ⟨2024, 2, 1⟩ (some "USD") lid.1.1 lid.1.2 exLedgerX =
+    evalTextScr cfgSorted none none ⟨2024, 2, 1⟩ (some "USD") lrev.1.1 lrev.1.2 exLedgerX :=
+  C13_eval_text ordSorted_string_ok none none _ _ lid lrev exLedgerX
 
 end CommandText
 end Okane.C13
